@@ -1373,6 +1373,34 @@ func randomSceneX(r *rand.Rand, big []int, thorough bool, instCount int) *sceneI
 		g.decorate(&mo)
 		sc.Models = append(sc.Models, mo)
 	}
+	// Round 9 (C06-N): instance lists of different models that ALIAS one backing array - the same slice, a
+	// prefix of it (same first element, fewer instances), a suffix. What a model instances is what ITS slice
+	// holds, whatever other slice starts at the same address.
+	if len(sc.Models) >= 2 && r.Intn(4) == 0 {
+		i := r.Intn(len(sc.Models))
+		if len(sc.Models[i].GpuInstances) < 2 {
+			k := 2 + r.Intn(5)
+			insts := make([]trs.TRS, k)
+			for j := range insts {
+				insts[j] = trs.New(g.v3(), g.quat(), vector3.New(0.5+g.r.Float64(), 1, 0.25+g.r.Float64()))
+			}
+			sc.Models[i].GpuInstances = insts
+		}
+		all := sc.Models[i].GpuInstances
+		for j := range sc.Models {
+			if j == i || r.Intn(2) == 0 {
+				continue
+			}
+			switch r.Intn(3) {
+			case 0:
+				sc.Models[j].GpuInstances = all[:1+r.Intn(len(all)-1)] // proper prefix
+			case 1:
+				sc.Models[j].GpuInstances = all[1+r.Intn(len(all)-1):] // proper suffix
+			default:
+				sc.Models[j].GpuInstances = all
+			}
+		}
+	}
 	if instCount > 0 && len(sc.Models) > 0 {
 		insts := make([]trs.TRS, instCount)
 		for j := range insts {
